@@ -2,6 +2,7 @@ use crate::run::Suite;
 use std::path::Path;
 
 pub mod c09;
+pub mod c09lex;
 pub mod c10;
 pub mod c12;
 pub mod c33;
@@ -36,7 +37,7 @@ pub mod xmltree;
 
 pub fn for_property(p: &str) -> Vec<Suite> {
     match p {
-        "C09" => c09::suites(),
+        "C09" => c09::suites().into_iter().chain(c09lex::suites()).collect(),
         "C10" => c10::suites(),
         "C16" => c16::suites(),
         "C18" => c18::suites(),
@@ -77,6 +78,7 @@ pub fn for_property(p: &str) -> Vec<Suite> {
 /// Regenerate `Generated/*.lean` from the running implementation (only rewritten when changed).
 pub fn extract_all(dir: &Path) {
     c09::extract(dir);
+    c09lex::extract(dir);
     c16::extract(dir);
     c22::extract(dir);
     c30::extract(dir);
